@@ -70,8 +70,13 @@ func raceMain(args []string) int {
 		tmpT := func(i int) j.B { return j.S(fmt.Sprintf("projects/p/instances/i/tables/tmp%d", i%4)) }
 		h := map[string]func(i int){
 			"CreateTable": func(i int) { o := mk(tmpT(i)); s.Exec(&o) },
-			"DeleteTable": func(i int) { o := bt.Op{Ev: "DeleteTable", T: tmpT(i)}; s.Exec(&o); o2 := mk(tmpT(i)); s.Exec(&o2) },
-			"ListTables":  func(i int) { o := bt.Op{Ev: "ListTables", Parent: P}; s.Exec(&o) },
+			"DeleteTable": func(i int) {
+				o := bt.Op{Ev: "DeleteTable", T: tmpT(i)}
+				s.Exec(&o)
+				o2 := mk(tmpT(i))
+				s.Exec(&o2)
+			},
+			"ListTables": func(i int) { o := bt.Op{Ev: "ListTables", Parent: P}; s.Exec(&o) },
 			"GetTable": func(i int) {
 				o := bt.Op{Ev: "GetTable", T: T}
 				s.Exec(&o)
@@ -83,7 +88,7 @@ func raceMain(args []string) int {
 				o := bt.Op{Ev: "ModifyFamilies", T: T, Mods: []bt.Mod{{K: k, F: j.S("h"), Rule: bt.Rule{T: "maxver", N: 2}}}}
 				s.Exec(&o)
 				// ... and on the tables that are being created and deleted meanwhile
-				o2 := bt.Op{Ev: "ModifyFamilies", T: tmpT(i), Mods: []bt.Mod{{K: k, F: j.S("h"), Rule: bt.Rule{T: "maxver", N: 2}}}}
+				o2 := bt.Op{Ev: "ModifyFamilies", T: tmpT(i), Mods: []bt.Mod{{K: k, F: j.S("g"), Rule: bt.Rule{T: "maxver", N: 2}}}}
 				s.Exec(&o2)
 			},
 			"DropRowRange": func(i int) {
